@@ -331,25 +331,46 @@ def _registrations(fn, stack_name):
     return out
 
 
+def _outer_stack(fn):
+    """name of the exit stack opened by the outermost `with (Async)ExitStack() as <name>` of the function"""
+    for n in fn.node.body:
+        if isinstance(n, (ast.With, ast.AsyncWith)):
+            for it in n.items:
+                if isinstance(it.context_expr, ast.Call) and (dotted(it.context_expr.func) or "").split(".")[-1] in ("ExitStack", "AsyncExitStack") and isinstance(it.optional_vars, ast.Name):
+                    return it.optional_vars.id
+    return None
+
+
 def check_tear(eng, run):
     db = eng.db
     sa = db.cls(f"{BASE}.BaseStandaloneNetworkServerImpl")
     aa = db.cls(f"{BASE}.BaseAsyncNetworkServerImpl")
     for ci, evtext in ((sa, "is_shutdown.set"), (aa, "is_shutdown.set")):
         fn = _meth(ci, "serve_forever")
-        regs = [r for r in _registrations(fn, "server_exit_stack")]
+        outer = _outer_stack(fn)
+        if outer is None:
+            raise AnalysisError(f"anchor vanished: outer exit stack of {fn.qualname}")
+        regs = [r for r in _registrations(fn, outer)]
         cbs = [r for r in regs if r.func.attr in ("callback", "push_async_callback")]
-        ok = bool(cbs) and evtext in ast.unparse(cbs[0].args[0]) if cbs and cbs[0].args else False
+        # the shutdown event: the attribute itself or a local bound in the same statement as the attribute
+        ev_names = {"self.__is_shutdown"}
+        for n in own_nodes(fn.node):
+            if isinstance(n, ast.Assign) and any((dotted(t) or "").endswith("__is_shutdown") for t in n.targets):
+                ev_names |= {dotted(t) for t in n.targets if dotted(t)}
+        a0 = cbs[0].args[0] if cbs and cbs[0].args else None
+        ok = isinstance(a0, ast.Attribute) and a0.attr == "set" and dotted(a0.value) in ev_names
         if not ok:
             run.finding("C18.tear", fn, cbs[0] if cbs else fn.node, "the shutdown-event set is not the first teardown callback registered on the server exit stack: it would run before other teardown steps (LIFO), so shutdown() returns while the server is still being torn down - a restart races with the old run's clean-up")
         run.ob("C18.tear", f"{fn.short}:event-set-registered-first", ok, registrations=len(regs))
     # standalone: locks live on locks_stack, the first context entered on the outer stack
     fn = _meth(sa, "serve_forever")
-    regs = _registrations(fn, "server_exit_stack")
+    outer = _outer_stack(fn)
+    regs = _registrations(fn, outer)
     first_ctx = next((r for r in regs if r.func.attr == "enter_context"), None)
     ok = first_ctx is not None and first_ctx is regs[0] and "ExitStack" in ast.unparse(first_ctx.args[0])
+    inner_stack = next((t.id for n in own_nodes(fn.node) if isinstance(n, ast.Assign) and n.value is first_ctx for t in n.targets if isinstance(t, ast.Name)), None)
     lock_regs = [n for n in own_nodes(fn.node) if isinstance(n, ast.Call) and _cname(n) == "enter_context" and n.args and "lock" in ast.unparse(n.args[0]).lower() and "ExitStack" not in ast.unparse(n.args[0])]
-    ok = ok and bool(lock_regs) and all(dotted(n.func.value) == "locks_stack" for n in lock_regs)
+    ok = ok and inner_stack is not None and bool(lock_regs) and all(dotted(n.func.value) == inner_stack for n in lock_regs)
     if not ok:
         run.finding("C18.tear", fn, fn.node, "the start-up locks are not held through a dedicated stack that is the first context of the outer exit stack: a failing server factory would leave them locked / they would be released before the teardown steps")
     run.ob("C18.tear", f"{fn.short}:locks-on-first-context", ok)
@@ -359,7 +380,7 @@ def check_tear(eng, run):
     if inner is not None:
         for w in own_nodes(inner.node):
             if isinstance(w, ast.AsyncWith) and any("create_threads_portal" in ast.unparse(it.context_expr) for it in w.items):
-                ok = any(isinstance(s, ast.Expr) and "locks_stack.close()" in ast.unparse(s) for s in w.body)
+                ok = any(isinstance(s, ast.Expr) and f"{inner_stack}.close()" in ast.unparse(s) for s in w.body)
     if not ok:
         run.finding("C18.tear", fn, fn.node, "the start-up locks are released before the threads portal exists: shutdown()/server_close() from another thread would see a half-started server")
     run.ob("C18.tear", f"{fn.short}:locks-released-after-portal", ok)
@@ -373,7 +394,9 @@ def check_tear(eng, run):
     run.ob("C18.tear", f"{sc.short}:listeners-closed-on-all-exits", ok)
     # async serve_forever: run scope reset on exit
     fn = _meth(aa, "serve_forever")
-    ok = any(isinstance(n, ast.Call) and _cname(n) == "callback" and n.args and dotted(n.args[0]) == "reset_scope" for n in own_nodes(fn.node))
+    resetters = {g.name for g in fn.nested.values() if not isinstance(g.node, ast.Lambda) and any(isinstance(x, ast.Assign) and any((dotted(t) or "").endswith("__server_run_scope") for t in x.targets)
+                                                                                                  and isinstance(x.value, ast.Constant) and x.value.value is None for x in own_nodes(g.node))}
+    ok = any(isinstance(n, ast.Call) and _cname(n) == "callback" and n.args and dotted(n.args[0]) in resetters for n in own_nodes(fn.node))
     if not ok:
         run.finding("C18.tear", fn, fn.node, "the run scope is not reset by an exit callback")
     run.ob("C18.tear", f"{fn.short}:run-scope-reset", ok)
